@@ -88,20 +88,50 @@ def theorem_names(prop):
     src_nc = re.sub(r'--.*', '', src_nc)
     return re.findall(r'^\s*theorem\s+(%s_\w+)' % prop, src_nc, flags=re.M), src
 
-def lean_sources_clean():
-    """grep every .lean file of the project for forbidden constructs (outside comments)"""
-    bad = []
-    for root, _, files in os.walk(LEAN):
-        if '.lake' in root:
+def import_closure(modules):
+    """DadiVerif.* modules reachable through imports from the given modules (paths relative to LEAN)"""
+    seen = {}
+    todo = list(modules)
+    while todo:
+        m = todo.pop()
+        if m in seen: continue
+        path = os.path.join(LEAN, *m.split('.')) + '.lean'
+        if not os.path.exists(path):
             continue
-        for f in files:
-            if f.endswith('.lean'):
-                src = open(os.path.join(root, f)).read()
-                nc = re.sub(r'/-.*?-/', '', src, flags=re.S)
-                nc = re.sub(r'--.*', '', nc)
-                for m in FORBIDDEN.finditer(nc):
-                    bad.append('%s: %s' % (os.path.relpath(os.path.join(root, f), LEAN), m.group(0).strip()))
+        src = open(path).read()
+        seen[m] = path
+        for im in re.findall(r'^import\s+(DadiVerif\.[\w.]+)', src, flags=re.M):
+            todo.append(im)
+    return seen
+
+def lean_sources_clean(modules):
+    """grep every .lean file in the import closure of `modules` for forbidden constructs (outside comments)"""
+    bad = []
+    for m, path in sorted(import_closure(modules).items()):
+        src = open(path).read()
+        nc = re.sub(r'/-.*?-/', '', src, flags=re.S)
+        nc = re.sub(r'--.*', '', nc)
+        for mm in FORBIDDEN.finditer(nc):
+            bad.append('%s: %s' % (os.path.relpath(path, LEAN), mm.group(0).strip()))
     return bad
+
+def theorem_spans(src, prop):
+    """(name, first_line, last_line) of every `theorem Cxx_*` in a Props source (1-based, to the next declaration)"""
+    lines = src.split('\n')
+    starts = []
+    for i, l in enumerate(lines, 1):
+        m = re.match(r'^\s*(?:@\[.*?\]\s*)?(theorem|lemma|def|example|instance|abbrev|structure|inductive|namespace|end|section|open|/--)\b\s*(\S*)', l)
+        if m:
+            starts.append((i, m.group(1), m.group(2)))
+    spans = []
+    for k, (i, kind, name) in enumerate(starts):
+        if kind == 'theorem' and name.startswith(prop + '_'):
+            j = len(lines)
+            for (i2, kind2, _) in starts[k + 1:]:
+                if kind2 != '/--' or True:
+                    j = i2 - 1; break
+            spans.append((name, i, j))
+    return spans
 
 def audit(prop, extra_modules=()):
     """Build Props.<prop>, then `#print axioms` every property theorem.
@@ -126,13 +156,20 @@ def audit(prop, extra_modules=()):
             f.write(body)
         rc, out = run(['lake', 'env', 'lean', apath], cwd=LEAN)
         res['log'] += '\n--- re-elaboration ---\n' + out[-4000:]
+        # any theorem whose source span contains an error line is not discharged, whatever #print axioms says
+        err_lines = [int(m.group(1)) for m in re.finditer(r'%s\.lean:(\d+):\d+: error' % prop, out)]
+        for (n, a, b) in theorem_spans(src, prop):
+            if any(a <= e <= b for e in err_lines):
+                res['failed'][n] = 'error while checking (line %d..%d)' % (a, b)
     seen = {}
     for m in re.finditer(r"'(?:DadiVerif\.)?(\w+)' depends on axioms: \[(.*?)\]", out, flags=re.S):
         seen[m.group(1)] = [a.strip() for a in m.group(2).replace('\n', ' ').split(',') if a.strip()]
     for m in re.finditer(r"'(?:DadiVerif\.)?(\w+)' does not depend on any axioms", out):
         seen[m.group(1)] = []
     for n in names:
-        if n not in seen:
+        if n in res['failed']:
+            res['axioms'][n] = seen.get(n, [])
+        elif n not in seen:
             res['failed'][n] = 'not checked (build or import failure)'
         else:
             res['axioms'][n] = seen[n]
@@ -141,7 +178,7 @@ def audit(prop, extra_modules=()):
                 res['failed'][n] = 'depends on ' + ','.join(extra)
             else:
                 res['discharged'].append(n)
-    bad = lean_sources_clean()
+    bad = lean_sources_clean(['DadiVerif.Props.' + prop] + list(extra_modules))
     if bad:
         for b in bad:
             res['failed']['source:' + b] = 'forbidden construct'
